@@ -574,6 +574,7 @@ enum Cop {
     WWriteBytes(usize),
     WWriteString,
     WWriteStringNone,
+    WWritePointerNone,
     WWritePointer,
     WWriteCString,
     WWriteLabel,
@@ -729,6 +730,12 @@ fn apply_cop(a: &mut BinArchive, rc: &mut usize, wc: &mut usize, op: &Cop) -> Re
             *wc = w.tell();
             v.map(|_| Ret::Unit).map_err(es)
         }
+        Cop::WWritePointerNone => {
+            let mut w = BinArchiveWriter::new(a, *wc);
+            let v = w.write_pointer(None);
+            *wc = w.tell();
+            v.map(|_| Ret::Unit).map_err(es)
+        }
         Cop::WWritePointer => {
             let mut w = BinArchiveWriter::new(a, *wc);
             let v = w.write_pointer(Some(0));
@@ -862,7 +869,7 @@ fn model_cop(s: &CState, op: &Cop) -> (Option<Result<Ret, ()>>, CState) {
                 (Some(Err(())), n)
             }
         }
-        Cop::WWriteString | Cop::WWriteStringNone | Cop::WWritePointer | Cop::WWriteCString => {
+        Cop::WWriteString | Cop::WWriteStringNone | Cop::WWritePointer | Cop::WWritePointerNone | Cop::WWriteCString => {
             if cell(s.wc) {
                 match op {
                     Cop::WWriteString => {
@@ -873,6 +880,9 @@ fn model_cop(s: &CState, op: &Cop) -> (Option<Result<Ret, ()>>, CState) {
                     }
                     Cop::WWritePointer => {
                         n.model.pointers.insert(s.wc, 0);
+                    }
+                    Cop::WWritePointerNone => {
+                        n.model.pointers.remove(&s.wc);
                     }
                     _ => {
                         n.model.cstrings.insert(s.wc, "wc".into());
@@ -968,6 +978,7 @@ impl System for CSys {
             }
         }
         v.push(Cop::WWriteStringNone);
+        v.push(Cop::WWritePointerNone);
         v.push(Cop::WWriteLabel);
         v.push(Cop::PWriteU16(1));
         if !overlaps(4) && !m.pointers.contains_key(&4) && !m.cstrings.contains_key(&4) {
